@@ -10,6 +10,8 @@
     - [alpha], [acceptb]                gibbs.py:321-327 / 748-754 and base.py:114, 142  (`torch.rand(..) < alpha`, drawn unconditionally)
     - [block_step], [pop_step]          AbstractPopulationGibbsSampler.sample (gibbs.py:281-335), one loop iteration / the loop
     - [ind_step]                        IndividualGibbsSampler.sample (gibbs.py:679-761)
+    - [resp_weights], [cluster_weighted], [alpha_mix], [regul_mix]
+                                        the cluster weighting of the mixture model in the same method (gibbs.py:721-744)
     Randomness is a tape: the list of values returned by torch.randn (flattened row-major, in call order)
     and by torch.rand.  That the former are N(0,1) and the latter U[0,1) is NOT modelled (trusted base). *)
 From Coq Require Import Reals List Arith Bool.
@@ -268,6 +270,41 @@ Section IndStep.
     | Sc _ => None
     end.
 End IndStep.
+
+(** * Mixture model: cluster-weighted regularity of the individual step (gibbs.py:721-744)
+    For the mixture model [nll_regul_<var>_ind] and [nll_regul_ind_sum_ind] have one column per cluster.  The code
+    turns row [j] of the latter into responsibilities  w = Softmax(dim=1)(clamp(-S, min=-100))  and reads the
+    regularity of individual [j] as  sum_k w_k * R_k  — once on the current state, once (responsibilities
+    RE-EVALUATED) on the proposed state. *)
+Definition sum_R (l : list R) : R := fold_right Rplus 0 l.
+
+Definition resp_logit (s : R) : R := Rmax (- s) (-100).
+
+Definition resp_weights (S : list R) : list R :=
+  let e := map (fun s => exp (resp_logit s)) S in map (fun x => x / sum_R e) e.
+
+Fixpoint dot (w r : list R) : R :=
+  match w, r with
+  | a :: w', b :: r' => a * b + dot w' r'
+  | _, _ => 0
+  end.
+
+(** [S]: the K summed prior terms of one individual, [Rk]: the K prior terms of the sampled variable *)
+Definition cluster_weighted (S Rk : list R) : R := dot (resp_weights S) Rk.
+
+Definition alpha_mix (pa na : R) (S0 R0 S1 R1 : list R) (tinv : R) : R :=
+  alpha pa na (cluster_weighted S0 R0) (cluster_weighted S1 R1) tinv.
+
+Fixpoint map2 {X Y Z : Type} (f : X -> Y -> Z) (l : list X) (m : list Y) : list Z :=
+  match l, m with
+  | a :: l', b :: m' => f a b :: map2 f l' m'
+  | _, _ => []
+  end.
+
+(** the per-individual regularity the mixture step reads, as a function of the value of the sampled variable:
+    [Ssum x], [Rvar x] = fresh rows of nll_regul_ind_sum_ind / nll_regul_<var>_ind on the state holding [x] *)
+Definition regul_mix (Ssum Rvar : tens R -> list (list R)) (x : tens R) : list R :=
+  map2 cluster_weighted (Ssum x) (Rvar x).
 
 (** * Graph facts (checked on the literals regenerated from the shipped model kinds) *)
 From Coq Require Import String.
